@@ -9,7 +9,7 @@ from fractions import Fraction
 import lib
 
 PID = "C10"
-THEOREMS = ["Properties_C10.v"]
+THEOREMS = ["Properties_C10.v", "Properties_C10_shift.v"]
 GROUP = "c10"
 LIBS = ["-ltbb"]
 D3_SIGNATURE = "final line without newline"
